@@ -750,5 +750,152 @@ theorem r_transition (fuel j : Nat) (ev : Event) (s : Fw σ) (hev : ev ≠ .limi
       have : ev.toNat ≠ Gen.EV_LimitReached := fun h => hev ((toNat_limitReached ev).1 h)
       simpa [plain] using this
 
+/-! ### the limit decrement -/
+
+theorem upd_self (f : Nat → Nat) (i v : Nat) (h : f i = v) : upd f i v = f := by
+  funext j
+  by_cases hj : j = i
+  · subst hj; simp [upd, h]
+  · simp [upd, hj]
+
+theorem hasLimitAt_eq {lim st : Nat → Nat} {s : Fw σ} {j : Nat} {r : Runtime} {m : Machine} {stt : State}
+    (hi : Inv ms lim st s) (hr : s.rt[j]? = some r) (hm : s.machines[j]? = some m)
+    (hst : m.states[r.currentState]? = some stt) :
+    hasLimitAt ms j (st j) = (match stt.action with | some a => a.hasLimit | none => false) := by
+  unfold hasLimitAt
+  rw [← hi.ms, hm, (hi.rt j r hr).2]
+  simp only [hst]
+  cases stt.action <;> rfl
+
+theorem r_decrement (j : Nat) (s : Fw σ) : R ms s (decrementLimit ρ j s) := by
+  unfold decrementLimit
+  cases hr : s.rt[j]? with
+  | none => simp only []; exact R.fault _
+  | some r =>
+  cases hm : s.machines[j]? with
+  | none => simp only []; exact R.fault _
+  | some m =>
+  simp only []
+  have hlim : (if r.stateLimit > 0 then r.stateLimit - 1 else r.stateLimit) =
+      (if r.stateLimit > 0 then r.stateLimit - 1 else 0) := by split <;> omega
+  rw [hlim]
+  generalize hv : (if r.stateLimit > 0 then r.stateLimit - 1 else 0) = v
+  have hf1 : ((s.modRt j (fun r' => { r' with stateLimit := v })).push (.limit j v true)).fault = s.fault := by
+    rw [Fw.push_fault]; exact Countdown.modRt_fault_some _ _ _ r hr
+  have hm1 : ((s.modRt j (fun r' => { r' with stateLimit := v })).push (.limit j v true)).machines = s.machines := by
+    simp
+  have hl1 : ((s.modRt j (fun r' => { r' with stateLimit := v })).push (.limit j v true)).log =
+      .limit j v true :: s.log := by simp [Fw.push]
+  have hr1 : ((s.modRt j (fun r' => { r' with stateLimit := v })).push (.limit j v true)).rt[j]? =
+      some { r with stateLimit := v } := by rw [Fw.push_rt, Fw.modRt_rt_self, hr]; rfl
+  have ho1 : ∀ i, i ≠ j →
+      ((s.modRt j (fun r' => { r' with stateLimit := v })).push (.limit j v true)).rt[i]? = s.rt[i]? := by
+    intro i hi; rw [Fw.push_rt, Fw.modRt_rt_other _ j i _ hi]
+  generalize (s.modRt j (fun r' => { r' with stateLimit := v })).push (.limit j v true) = s1
+    at hf1 hm1 hl1 hr1 ho1 ⊢
+  -- the invariant after the decrement
+  have hinv : ∀ lim st, Inv ms lim st s → Inv ms (upd lim j v) st s1 := by
+    intro lim st hi
+    have := Inv.update hi hm1 hr1 ho1
+    rw [upd_self st j _ (hi.rt j r hr).2] at this
+    exact this
+  have hexp : ∀ lim st, Inv ms lim st s → v = if lim j > 0 then lim j - 1 else 0 := by
+    intro lim st hi; rw [(hi.rt j r hr).1]; exact hv.symm
+  -- the plain case: the decrement is the whole segment
+  have hplain : ∀ stt, m.states[r.currentState]? = some stt →
+      (v == 0 && (match stt.action with | some a => a.hasLimit | none => false)) = false → R ms s s1 := by
+    intro stt hst hnr ht
+    refine ⟨by rw [← hf1]; exact ht, [.limit j v true], by simp [hl1], fun lim st hi => ?_⟩
+    refine ⟨upd lim j v, st, Good.dec ms lim st j v (hexp lim st hi) ?_, hinv lim st hi⟩
+    rw [hasLimitAt_eq hi hr hm hst]; exact hnr
+  cases hst : m.states[r.currentState]? with
+  | none => simp only []; exact R.fault _
+  | some stt =>
+  simp only []
+  cases hact : stt.action with
+  | none => simp only []; exact hplain stt hst (by simp [hact])
+  | some a =>
+    simp only []
+    split
+    · next hc =>
+      simp only [Bool.and_eq_true, decide_eq_true_eq] at hc
+      have hv0 : v = 0 := hc.1
+      have hal : a.hasLimit = true := hc.2
+      subst hv0
+      split
+      · exact R.fault _
+      · intro ht
+        have hr1' : ({ s1 with actions := s1.actions.set j none } : Fw σ).rt[j]? = some { r with stateLimit := 0 } := hr1
+        have hm1' : ({ s1 with actions := s1.actions.set j none } : Fw σ).machines[j]? = some m := by
+          show s1.machines[j]? = some m
+          rw [hm1]; exact hm
+        obtain ⟨hfT, cT, hlT, hpT⟩ :=
+          (main ρ (ms := ms) j FUEL).1 .limitReached ({ s1 with actions := s1.actions.set j none } : Fw σ) _ m hr1' hm1' ht
+        refine ⟨by rw [← hf1]; exact hfT, .limit j 0 true :: .trans j Gen.EV_LimitReached r.currentState :: cT, ?_,
+          fun lim st hi => ?_⟩
+        · rw [hlT]; simp [Fw.push, hl1, Event.toNat]
+        · have hi1 : Inv ms (upd lim j 0) st
+              (({ s1 with actions := s1.actions.set j none } : Fw σ).push
+                (.trans j Event.limitReached.toNat ({ r with stateLimit := 0 } : Runtime).currentState)) :=
+            ⟨(hinv lim st hi).ms, (hinv lim st hi).rt⟩
+          obtain ⟨l2, s2, gT, iT⟩ := hpT (upd lim j 0) st hi1
+          refine ⟨l2, s2, Good.decLR ms lim st l2 s2 j r.currentState cT (hexp lim st hi) ?_ gT, iT⟩
+          rw [hasLimitAt_eq hi hr hm hst, hact]; exact hal
+    · next hc =>
+      refine hplain stt hst ?_
+      rw [hact]
+      simpa using hc
+
+/-! ### whole calls -/
+
+/-- every building block of `trigger_events` extends the log by a segment the monitor accepts -/
+theorem walkR : WalkEvX ρ (R (σ := σ) ms) where
+  refl := R.refl
+  trans := R.trans
+  transition j ev s _ hev := r_transition ρ FUEL j ev s hev
+  decrement j s _ := r_decrement ρ j s
+  fault s f := R.withFault s f
+  signal s p := R.same rfl rfl rfl rfl
+  setG s g' := R.same rfl rfl rfl rfl
+  acct s j f hf := R.modRt s j f (fun r => by rw [hf r]; rfl)
+
+theorem r_callStart (s : Fw σ) (t : Int) : R ms s (s.callStart t) := by
+  refine R.keep (fun h => h) rfl rfl (fun j => ?_)
+  simp only [Fw.callStart, List.getElem?_map]
+  cases s.rt[j]? <;> rfl
+
+theorem r_call (es : List TEvent) (t : Int) (s : Fw σ) : R ms s (triggerEvents ρ es t s) := by
+  unfold triggerEvents
+  have W := walkR ρ (σ := σ) (ms := ms)
+  exact (r_callStart s t).trans
+    ((W.toWalkCoreX.foldl _ (fun a e => W.processEvent e a) es _).trans (W.toWalkCoreX.signalRound _))
+
+/-- the maps the monitor starts a call with: limit and state of the snapshot before the call, 0 for
+    an id without a runtime -/
+def limOf (p : Snap) : Nat → Nat := fun j => match p.rts[j]? with | some r => r.limit | none => 0
+def stOf (p : Snap) : Nat → Nat := fun j => match p.rts[j]? with | some r => r.state | none => 0
+
+theorem limOf_snap (s : Fw σ) (j : Nat) (r : Runtime) (hr : s.rt[j]? = some r) :
+    limOf s.snap j = r.stateLimit ∧ stOf s.snap j = r.currentState := by
+  simp [limOf, stOf, Fw.snap, List.getElem?_map, hr]
+
+theorem inv_snap (s : Fw σ) : Inv s.machines (limOf s.snap) (stOf s.snap) s :=
+  ⟨rfl, fun j r hr => limOf_snap s j r hr⟩
+
+/-- **The log segment of a call that ends without a fault is accepted by `C07.checkLog`**, started
+    from the limits and states of the snapshot taken before the call. -/
+theorem call_accepted (es : List TEvent) (t : Int) (s : Fw σ) (hok : (triggerEvents ρ es t s).fault = none)
+    (l : List LogEntry) (hl : (triggerEvents ρ es t s).log = l ++ s.log) (lt : LT) :
+    checkLog s.machines (limOf s.snap) (stOf s.snap) lt l.reverse = none := by
+  obtain ⟨_, c, hc, hp⟩ := r_call ρ (ms := s.machines) es t s hok
+  have hlc : l = c.reverse := List.append_cancel_right (hl.symm.trans hc)
+  subst hlc
+  rw [List.reverse_reverse]
+  obtain ⟨lim', st', hg, _⟩ := hp _ _ (inv_snap s)
+  have := hg.chk lt [] rfl
+  rw [List.append_nil] at this
+  rw [this]
+  simp only [checkLog]
+
 end LL
 end Mb
